@@ -62,6 +62,8 @@ def setup(ctx):
     from bridgepoint import interpret, oal
     _CTX, _xtuml, _interpret, _oal = ctx, xtuml, interpret, oal
     _SCHEMA_SQL = G.schema_sql()
+    import logging
+    interpret.logger.setLevel(logging.CRITICAL + 1)      # the programs that fail half way log what ActionWalker.accept swallows
     install_tracer(interpret, oal)
 
 
@@ -111,6 +113,24 @@ def install_tracer(interpret, oal):
 
 # ----------------------------------------------------------------------------------------------- canonical forms
 
+class _Seq(object):
+    """the return values of the programs of a session"""
+    def __init__(self, values):
+        self.values = values
+
+
+class _Ignored(object):
+    """the outcome of a program that fails half way is not part of the comparison (what follows it is)"""
+
+
+def blank_failed(case, canon):
+    if case.get('steps') and canon and canon[0] == 'ok' and isinstance(canon[1], list) and canon[1][:1] == ['seq']:
+        for k, st in enumerate(case['steps']):
+            if st['fails'] and k + 1 < len(canon[1]):
+                canon[1][k + 1] = ['ignored']
+    return canon
+
+
 def cval(v, name_of):
     """canonical value: tagged so that no two kinds can collide"""
     if v is None:
@@ -154,7 +174,11 @@ def canon_impl(m, ret):
                 if id(key) not in names or any(id(x) not in names for x in vals):
                     anomalies.append('association %d links an instance that is not in the pool' % k)
         links.append([k, from_s, from_t])
-    out = ['ok', cval(ret, name_of), m.id_generator.peek(), pop, links]
+    if isinstance(ret, _Seq):
+        rv = ['seq'] + [(['ignored'] if isinstance(x, _Ignored) else cval(x, name_of)) for x in ret.values]
+    else:
+        rv = cval(ret, name_of)
+    out = ['ok', rv, m.id_generator.peek(), pop, links]
     if anomalies:
         out.append(sorted(set(anomalies)))
     return out
@@ -179,6 +203,8 @@ def _spec_val(x, rank):
         return ['i', x[1], rank.get((x[1], x[2]), 'dead')]
     if isinstance(x, list) and x and x[0] == 'set':
         return ['set'] + [_spec_val(y, rank) for y in x[1:]]
+    if isinstance(x, list) and x and x[0] == 'seq':
+        return ['seq'] + [_spec_val(y, rank) for y in x[1:]]
     return ['other', repr(x)]
 
 
@@ -228,6 +254,51 @@ def model_line_for(pop, text, kwargs):
                   oal_sexp.encode(tree), kw])
 
 
+FAIL_TAILS = [
+    # (statements that are IN the domain, the statement that fails, what it is)
+    ([], 'zq9 = 1 / 0;', 'division by zero'),
+    ([], 'zq9 = nosuchvar9;', 'unknown variable'),
+    ([['create', 'qa9', 'A'], ['create', 'qb8', 'B'], ['create', 'qb9', 'B'], ['relate', 'qb8', 'qa9', 'R1', '']],
+     'relate qb9 to qa9 across R1;', 'relate rejected by the multiplicity'),
+    ([['create', 'qa9', 'A'], ['create', 'qb9', 'B']], 'relate qa9 to qb9 across R9;', 'unknown association'),
+    ([['create', 'qa9', 'A'], ['delete', 'qa9']], 'delete object instance qa9;', 'second delete'),
+    ([['create', 'qa9', 'A'], ['create', 'qb9', 'B']], 'unrelate qb9 from qa9 across R1;', 'unrelate of unrelated instances'),
+    ([['create', 'qa9', 'A']], 'zq9 = qa9.nosuchattr;', 'unknown attribute'),
+    ([['select_from', 'any', 'qx9', 'X', ['bin', '==', ['attr', ['selected'], 'n'], ['int', 987654]]]], 'zq9 = qx9.n;',
+     'attribute read through an empty handle'),
+]
+
+
+def with_tail(prog, up, tail):
+    """-> (text the reference semantics runs, text the interpreter runs): the statements of the tail that are in the
+    domain are inserted before the final return of the program, the failing statement after them - it has no effect on
+    the population, so the state the reference semantics reaches WITHOUT it is the state the interpreter has to leave"""
+    pre, fail, _ = tail
+    body, last = (prog[:-1], prog[-1:]) if prog and prog[-1][0] == 'return' else (prog, [])
+    head = G.render(body + pre, up)
+    end = G.render(last, up)
+    return head + end, head + fail + '\n' + end
+
+
+def make_session(ident, pop, steps, up):
+    """steps: [(prog, kwargs, tail or None)] run one after the other on ONE metamodel under ONE label"""
+    wire, impl = [], []
+    for prog, kwargs, tail in steps:
+        if tail is None:
+            ref_text = py_text = G.render(prog, up)
+        else:
+            ref_text, py_text = with_tail(prog, up, tail)
+        tree = _oal.parse(ref_text)
+        kw = [[n, (Sym('T') if v is True else Sym('F') if v is False else v)] for n, v in sorted(kwargs.items())]
+        wire.append([oal_sexp.encode(tree), kw])
+        impl.append({'text': py_text, 'kwargs': kwargs, 'fails': tail[2] if tail else None})
+    line = dumps([Sym('interp-seq'), FUEL, G.ctx_sexp(), G.state_sexp(pop, G.initial_next_id(pop))] + wire)
+    text = '\n-- next program, same metamodel --\n'.join(
+        ('-- fails half way: %s\n' % st['fails'] if st['fails'] else '') + st['text'] for st in impl)
+    return {'id': ident, 'pop': pop, 'prog': [st for p, _, _ in steps for st in p], 'progs': [p for p, _, _ in steps],
+            'steps': impl, 'steps_src': [[p, kw, (list(t) if t else None)] for p, kw, t in steps], 'text': text, 'kwargs': steps[0][1], 'up': up, 'line': line, 'expect': None}
+
+
 def make_case(ident, pop, prog, kwargs, up):
     text = G.render(prog, up)
     return {'id': ident, 'pop': pop, 'prog': prog, 'text': text, 'kwargs': kwargs, 'up': up,
@@ -243,9 +314,9 @@ def attach_expectations(ctx, cases):
     for c, a in zip(cases, answers):
         ans = loads(a)
         if isinstance(ans, list) and ans and ans[0] == 'ok':
-            c['expect'] = canon_spec(ans)
+            c['expect'] = blank_failed(c, canon_spec(ans))
             yield c
-        elif isinstance(ans, list) and len(ans) == 2 and ans[0] == 'error' and ans[1] == DIV_BY_ZERO:
+        elif isinstance(ans, list) and len(ans) == 2 and ans[0] == 'error' and ans[1] == DIV_BY_ZERO and not c.get('steps'):
             c['expect'] = canon_spec(ans)
             ctx.count('expected_division_by_zero_error')
             yield c
@@ -280,7 +351,19 @@ def generate(ctx, arithmetic_only=False):
         ctx.count('generated')
         if arith:
             ctx.count('generated_arithmetic_family')
-        batch.append(make_case(i, pop, prog, kwargs, g.uppercase))
+        if g.snapshot_done:
+            ctx.count('generated_with_held_set_across_create_delete')
+        if i % 10 == 6 and not arithmetic_only:
+            # a SESSION: several programs on one metamodel, under one label (patterns: the same question twice with a
+            # change in between; a program that fails half way followed by further programs on the same metamodel)
+            steps, kind = gen_session(r.fork('session'), prog, params, kwargs, max_stmts, max_depth)
+            ctx.count('generated_session_' + kind)
+            try:
+                batch.append(make_session(i, pop, steps, g.uppercase))
+            except Exception as ex:      # the inserted tail made the text unparsable for the real parser: a harness matter
+                raise RuntimeError('session %d does not parse: %s' % (i, ex))
+        else:
+            batch.append(make_case(i, pop, prog, kwargs, g.uppercase))
         if len(batch) >= 200:
             yield from attach_expectations(ctx, batch)
             batch = []
@@ -300,6 +383,31 @@ def flag_out_of_fuel(ctx):
                          % (PROP, n, FUEL))
 
 
+def gen_session(r, prog, params, kwargs, max_stmts, max_depth):
+    """-> ([(program, kwargs, failing tail or None)], kind)"""
+    def another(tag, mutate=True, stmts=None):
+        g = G.ProgGen(r.fork(tag), max_stmts=stmts or r.randint(3, max(4, max_stmts // 2)), max_depth=r.randint(1, max_depth),
+                      params=params, allow_mutation=mutate, allow_delete=mutate)
+        return g.gen_program()
+    k = r.random()
+    if k < 0.25:
+        # the same program twice: its creates / deletes / relates change what its selects see the second time
+        return [(prog, kwargs, None), (prog, kwargs, None)], 'same_twice'
+    if k < 0.5:
+        # a query, a change, the same query again (and the change again)
+        q = another('query', mutate=False)
+        return [(q, kwargs, None), (prog, kwargs, None), (q, kwargs, None), (prog, kwargs, None), (q, kwargs, None)], 'query_change_query'
+    tail = r.choice(FAIL_TAILS)
+    if k < 0.75:
+        # a program that fails half way, then the same program without the failure, then a query
+        q = another('query', mutate=False)
+        return [(prog, kwargs, tail), (prog, kwargs, None), (q, kwargs, None)], 'fails_then_same'
+    # two failures of different kinds around an ordinary program
+    tail2 = r.choice(FAIL_TAILS)
+    p2 = another('second')
+    return [(p2, kwargs, tail), (prog, kwargs, None), (p2, kwargs, tail2), (prog, kwargs, None)], 'fails_between'
+
+
 def case_from_json(c):
     return c
 
@@ -317,8 +425,21 @@ def run_impl(case):
     tr = {'cond': {}, 'loops': {}, 'exec': {}, 'outcomes': {}, 'modops': {}, 'negmod': set()}
     _TR = tr
     raised = None
+    label = 'case%s' % case.get('id')
     try:
-        ret = _interpret.run_function(m, 'case%s' % case.get('id'), case['text'], dict(case['kwargs']))
+        if case.get('steps'):
+            values = []
+            for st in case['steps']:
+                try:
+                    v = _interpret.run_function(m, label, st['text'], dict(st['kwargs']))
+                except Exception:
+                    if not st['fails']:
+                        raise
+                    v = None
+                values.append(_Ignored() if st['fails'] else v)
+            ret = _Seq(values)
+        else:
+            ret = _interpret.run_function(m, label, case['text'], dict(case['kwargs']))
     except Exception as ex:        # a program of the domain must not raise: a finding, reported with the program
         raised = '%s: %s' % (type(ex).__name__, str(ex)[:200])
         ret = _Raised()
@@ -380,6 +501,10 @@ def run_impl(case):
         if G.expr_is_literal(e):
             stats['cond_literal_only_' + kind] = stats.get('cond_literal_only_' + kind, 0) + 1
     stats['cond_sites'] = nconds
+    if case.get('steps'):
+        stats['session'] = 1
+        stats['session_programs'] = len(case['steps'])
+        stats['session_programs_failing_half_way'] = sum(1 for st in case['steps'] if st['fails'])
     if negmod:
         stats['mod_with_negative_operand'] = 1
     if exp[0] == 'raised':
@@ -414,13 +539,38 @@ def model_line(case):
 
 
 def model_obs(case, ans):
-    return canon_spec(ans)
+    return blank_failed(case, canon_spec(ans))
 
 
 def shrink_candidates(case):
     """smaller programs / populations that the reference semantics still accepts"""
     ctx = _CTX
     if ctx is None or ctx.lean is None or ctx.lean.driver is None:
+        return
+
+    class _Quiet0(object):
+        lean = ctx.lean
+
+        def count(self, *a, **k):
+            pass
+    if case.get('steps'):
+        # a session: drop one program at a time, then a failing tail
+        src = case['steps_src']
+        cands = []
+        for k in range(len(src)):
+            if len(src) > 1:
+                cands.append(src[:k] + src[k + 1:])
+            if src[k][2] is not None:
+                cands.append(src[:k] + [[src[k][0], src[k][1], None]] + src[k + 1:])
+        cases = []
+        for steps in cands:
+            try:
+                cases.append(make_session(case.get('id'), case['pop'], [(p, kw, (tuple(t) if t else None)) for p, kw, t in steps],
+                                          case.get('up', False)))
+            except Exception:
+                continue
+        for c in attach_expectations(_Quiet0(), cases):
+            yield c
         return
     cands = []
     for prog in G.shrink_programs(case['prog']):
